@@ -2,11 +2,14 @@
 from pyvc.spec import new_spec
 
 
-def build_spec():
+def build_spec(profile=None):
+    """profile 'redirector': the Redirector's table-maintaining methods get their verified contracts; in the default
+    profile the watcher lifecycle keeps seeing them through the frame-only placeholders of c_watcher (A-REDIRFRAME)"""
     spec = new_spec()
+    spec.profile = profile
     from . import (classes, lib_std, relies, c_process, c_watcher, c_util, c_sync, c_arbiter,
-                   c_commands, c_stream, c_controller, c_options, c_signal, c_manage, c_pidfile, c_shutdown)
+                   c_commands, c_stream, c_controller, c_options, c_signal, c_manage, c_pidfile, c_shutdown, c_redirector, c_spawn)
     for m in (classes, lib_std, relies, c_process, c_watcher, c_util, c_sync, c_arbiter, c_commands,
-              c_stream, c_controller, c_options, c_signal, c_manage, c_pidfile, c_shutdown):
+              c_stream, c_controller, c_options, c_signal, c_manage, c_pidfile, c_shutdown, c_redirector, c_spawn):
         m.declare(spec)
     return spec
